@@ -387,6 +387,15 @@ def _mk_nary(op, xs):
             if m_[0] == 'lin' and m_[1] == -1 and len(m_[2]) == 1 and m_[2][0][1] == 1 and m_[2][0][0][0] == 'bin' and \
                     m_[2][0][0][1] == '**' and m_[2][0][0][2] == ('const', 2) and not _has_str(x_):
                 return ('bin', '%', x_, m_[2][0][0])
+    if op == '|' and len(rest) == 2:
+        # (X << k) | Y[0:k]  ==  Cat(Y[0:k], X): the k low bits come from the slice (exactly k bits wide), the rest from X
+        for hi_, lo_ in ((rest[0], rest[1]), (rest[1], rest[0])):
+            if lo_[0] == 'sub' and lo_[2][0] == 'slice' and lo_[2][1] in (('const', 0), ('const', None)) and \
+                    lo_[2][3] in (('const', 1), ('const', None)) and hi_[0] == 'nary' and hi_[1] == '*' and len(hi_[2]) == 2:
+                k_ = lo_[2][2]
+                for p_, x_ in ((hi_[2][0], hi_[2][1]), (hi_[2][1], hi_[2][0])):
+                    if p_ == ('bin', '**', ('const', 2), k_):
+                        return ('call', ('name', 'Cat'), (lo_, x_), ())
     return ('nary', op, tuple(rest))
 
 
